@@ -14,6 +14,7 @@
 -/
 import LbfgsbVerif.Props.C08Min
 import LbfgsbVerif.Props.C09Model
+import LbfgsbVerif.Props.C09Run
 
 namespace Lbfgsb.C01
 open Lbfgsb Matrix
@@ -49,5 +50,22 @@ theorem nonstationary_descent (i : CauchyIn K) (n k : Nat) (Mm : Matrix (Fin k) 
       · rw [ha]; simp
       · exact le_of_lt (hc.pd a ha))
     _ u free hact hnewton (nonstationary_cauchy_decrease i n k Mm hk hc hns) α h0 h1
+
+/-- **C01 (e)** the same for the two executable models chained as the driver chains the routines:
+`x̄ = subspaceMin` applied to the output of `cauchy`. At a non-stationary iterate `gᵀ(x̄ − x) < 0`. -/
+theorem model_iteration_descent (i : CauchyIn K) (n k : Nat) (Mm Minvm : Matrix (Fin k) (Fin k) K)
+    (hk : kOf i = k) (hc : MinCtx i n k Mm (f2orgOf i)) (hns : projgr i.x i.g i.lb i.ub ≠ 0)
+    (j : SubIn K) (hj : j.toCauchyIn = i) (hxc : j.xc = (cauchy i).1) (hsub : SubCtx j n k Mm Minvm) :
+    vec n i.g ⬝ᵥ (vec n (subspaceMin j) - vec n i.x) < 0 := by
+  have hdec := nonstationary_cauchy_decrease i n k Mm hk hc hns
+  have hpsd : ∀ a : Fin n → K, 0 ≤ a ⬝ᵥ (bmat i.theta (wmat n k i.W) Mm *ᵥ a) := by
+    intro a
+    by_cases ha : a = 0
+    · rw [ha]; simp
+    · exact le_of_lt (hc.pd a ha)
+  have := C09.subspace_direction_descent j n k Mm Minvm hsub hc.q.hsym
+    (by rw [hj]; exact hpsd) (by rw [hj, hxc]; exact hdec)
+  rw [hj] at this
+  exact this
 
 end Lbfgsb.C01
